@@ -5,7 +5,8 @@
       → `Torrent._set_files(files, basepath)`  (torf/_torrent.py)
           → empty files are dropped by `_set_files` itself (since d89a92e):
               `files = tuple(f for f in files if not (f.size <= 0 and os.path.exists(f)))`
-          → `utils.filter_files(files, getter=relpath_with_parent, hidden=False, empty=True, …)`
+          → `utils.filter_files(files, getter=relpath_with_parent, hidden=False, empty=True, …,
+                                basepath=basepath and abspath(basepath).name)`   (since 1742c6d)
 
   External things are parameters:
   * the content tree: its directory (or file) name and its files (path below the tree root,
@@ -117,11 +118,15 @@ def filterKeep (o : Oracles) (st : Settings) (cwd : Comps) (base fp : Comps) : B
   else if isExcluded o st (withBaseStr base fp) then false
   else true
 
-/-- `items` are pairs (item, `getter(item)`) -/
-def filterFiles (o : Oracles) (st : Settings) (cwd : Comps)
+/-- `items` are pairs (item, `getter(item)`); `basepath` is the keyword argument of that name
+    (`some s` = the string handed in, which `pathlib.Path(s)` turns into a path: `''` is `.`) -/
+def filterFiles (o : Oracles) (st : Settings) (cwd : Comps) (basepath : Option String)
     (items : List (α × Comps)) : List (α × Comps) :=
-  -- `except ValueError: basepath = Path.cwd()` (only reachable with no items)
-  let base := (commonpath (items.map (·.2))).getD cwd
+  let base := match basepath with
+    | some s => (pathlibNorm ⟨false, [s]⟩).comps
+    -- the default: the longest common path of the files
+    -- (`except ValueError: basepath = Path.cwd()` is only reachable with no items)
+    | none => (commonpath (items.map (·.2))).getD cwd
   items.filter fun it => filterKeep o st cwd base it.2
 
 /-! ### `Torrent._set_files` -/
@@ -133,16 +138,15 @@ def withGetter (cwd : Comps) (absB : Comps) (files : List Item) : Except Err (Li
     | none => throw .relativeTo
 
 /-- `str(basepath).endswith('.') or str(basepath).endswith('..')` (the second test is implied
-    by the first); the disjunct `c == ".."` is implied as well and only there to make that case
-    syntactically visible to the proofs -/
-def endsWithDot (c : String) : Bool := c == ".." || c.toList.getLast? == some '.'
+    by the first) for a pathlib path: `str` is `"."` for the relative path without components,
+    otherwise it ends with the last component (`"/"` for the root) -/
+def endsWithDot (B : PPath) : Bool :=
+  (!B.abs && B.comps.isEmpty) || (name B.comps).toList.getLast? == some '.'
 
-/-- the name rules of the multi-file branch -/
+/-- the name rule of the multi-file branch (since /repo 42ec9ba: one case for `.`, `..`, `sub/..`,
+    `../..`, `T.` …: the name of the directory the path leads to) -/
 def dirName (cwd : Comps) (B : PPath) : String :=
-  if !B.abs && B.comps.isEmpty then name cwd                       -- str(basepath) == '.'
-  else if !B.abs && B.comps == [".."] then name (parent cwd)       -- str(basepath) == '..'
-  else if endsWithDot (name B.comps) then name (normpath B.abs B.comps)
-  else name B.comps
+  if endsWithDot B then name (abspath cwd B) else name B.comps
 
 def filesInfo (cwd absB : Comps) (sorted : List Item) : Except Err (List (Comps × Nat)) :=
   sorted.mapM fun f =>
@@ -162,7 +166,8 @@ def setFiles (o : Oracles) (st : Settings) (cwd : Comps) (ex : PPath → Bool)
   let absB := abspath cwd B
   let files := dropEmpty ex files
   let items ← withGetter cwd absB files
-  let kept := (filterFiles o st cwd items).map (·.1)
+  -- `basepath and abspath(basepath).name`: a `Path` is always true
+  let kept := (filterFiles o st cwd (some (name absB)) items).map (·.1)
   if kept.isEmpty || kept.all (·.ent.size == 0) then
     return .empty
   else if kept.length == 1 && kept.head?.map (·.path) == some B then
